@@ -30,11 +30,15 @@ def run_property(prop: str, repo_root: str, tier: str, seed: int, write_evidence
                 continue
             if only_rule and rule_id != only_rule:
                 continue
-            fn(ctx, rule_id)
+            try:
+                fn(ctx, rule_id)
+            except AnalysisError as e:
+                # one rule losing sight of its subject must not hide what the other rules of the property report
+                ctx.rule_errors.append(f'{rule_id} ({fn.__name__}): {e}')
         if os.environ.get('WCVERIF_LIST'):
             for o in ctx.obs:
                 print(('ok  ' if o.ok else 'FAIL'), o.key, '|', o.site, '|', o.expect[:70], '|', o.got[:90])
-        if not ctx.obs:
+        if not ctx.obs and not ctx.rule_errors:
             raise AnalysisError(f'{prop}: no obligations were generated')
         return finish(ctx, t0, spec['explanation'], spec['assumptions'], write_evidence, replay_dir)
     except AnalysisError as e:
